@@ -470,6 +470,27 @@ Proof.
     repeat split; try lia.
 Qed.
 
+Lemma l_unrot_rot_map (f : dim -> dim) l : l_unrotate (l_rotate (map f l)) = map f l.
+Proof. apply l_unrotate_rotate. Qed.
+
+Lemma norm_reindexedL is : forall v, lok (lay v) -> norm (v_reindexedL is v) = norm v /\ lok (lay (v_reindexedL is v)).
+Proof.
+  induction is as [|i rest IH]; intros v Hl; [split; [reflexivity|assumption]|].
+  destruct rest as [|j rest'].
+  - cbn [v_reindexedL]. split; [apply norm_reindexed|apply lok_reindexed; assumption].
+  - change (v_reindexedL (i :: j :: rest') v) with (v_unrotated (v_reindexedL (j :: rest') (v_rotated (v_reindexed i v)))).
+    pose proof (lok_rotated _ (lok_reindexed v i Hl)) as Hr.
+    destruct (IH _ Hr) as [En Hk]. split; [|apply lok_unrotated; exact Hk].
+    rewrite norm_unrotated, En, norm_rotated, norm_reindexed.
+    destruct v as [l b]. unfold norm, v_unrotated, v_rotated; cbn [lay base]. f_equal. apply l_unrotate_rotate.
+Qed.
+
+Lemma tw_reindexedL v is : lok (lay v) -> tw v (OReindexedL is).
+Proof.
+  intros Hl. destruct (norm_reindexedL is v Hl) as [En Hk]. split; [|exact Hk].
+  cbn [twin_op run_ops exec_op]. rewrite En. reflexivity.
+Qed.
+
 (* ---- every operation; whole programs ---- *)
 Definition c19_safe (o : op) (v : view) : bool :=
   match o with
@@ -500,6 +521,7 @@ Proof.
   - apply tw_paren; assumption.
   - apply tw_reindexed; assumption.
   - apply tw_blocked; assumption.
+  - apply tw_reindexedL; assumption.
 Qed.
 
 Fixpoint run_safe (ops : list op) (v : view) : bool :=
